@@ -5,8 +5,8 @@ CONSTANTS
   MaxS = 2147483647
   Protocol = TRUE
   CfgIds = {1, 2, 3, 4}
-  MaxDepth = 5
-  Sample = 397
+  MaxDepth = 6
+  Sample = 1999
   PriceMoves = {8, 13}
   GuardShares = TRUE
   Rich = FALSE
